@@ -77,7 +77,9 @@ class Spy:
         spy = self
         def getter(rd):
             f = sys._getframe(1); name = f.f_code.co_name
-            if name == 'root_element': unit = ['root', f.f_locals['self'].path]
+            if name == 'root_element':
+                # the cache is per File OBJECT: a part that is the target of two relationships has two of them
+                fo = f.f_locals['self']; unit = ['root', '%s#%s@%s' % (fo.path, getattr(fo, 'Id', ''), getattr(fo, 'dir', ''))]
             elif name == 'files': unit = ['files']
             elif name == 'numId2Attrs': unit = ['num']
             else: unit = ['raw', name]
